@@ -128,6 +128,45 @@ def run_vectors(chk, exe, tier, broken, model_ok):
                                "empty_vectors": sizes["strings"].count(0)}
 
 
+def run_argc(chk, exe, tier, broken, model_ok):
+    """wasiInit(argc, argv, …) with an argv ARRAY longer than argc (any NULL-terminated argv passed with a smaller
+    count), argc = 0 with a NULL and with a non-NULL argv: sizes and layout are those of the first argc entries."""
+    rng = chk.rng
+    cases = [(0, None), (0, []), (0, [b"a"]), (0, [b"prog", b"x", b"y"]), (1, [b"prog", b"--hidden", b"zz"]), (2, [b"a", b"bc", b"def", b"ghij"]),
+             (3, [b"a", b"", b"c"]), (1, [b"only"]), (2, [b"p", b"q", b"r" * 300])]
+    for _ in range(25 if tier == "quick" else 300):
+        n = rng.randrange(0, 10)
+        arr = [bytes(rng.choice(b"abcXYZ=-_.") for _ in range(rng.choice([0, 1, 3, 17, 120]))) for _ in range(n)]
+        cases.append((rng.randrange(0, n + 1), arr))
+    lines, exps = [], []
+    for argc, arr in cases:
+        v = (arr or [])[:argc]
+        total = sum(len(a) + 1 for a in v)
+        p, b = 8, 8 + 4 * argc + rng.choice([0, 3])
+        msize = b + total + rng.choice([0, 0, 16])
+        msize = max(msize, 8)
+        n = -1 if arr is None else len(arr)
+        lines.append(f"argsx {msize} {p} {b} 0 4 {argc} {n}" + "".join(" " + wp.hexs(a) for a in (arr or [])))
+        exps.append(vec_expected(v, msize, p, b))
+    real = wp.batch_once(exe, lines)
+    model = vlib.DriverProc(PATHSDRIVER).batch(lines) if model_ok else None
+    shapes = {"argv_null": 0, "argc_zero": 0, "argc_lt_array": 0, "argc_eq_array": 0}
+    for i, (argc, arr) in enumerate(cases):
+        shapes["argv_null" if arr is None else "argc_zero" if argc == 0 else "argc_lt_array" if argc < len(arr) else "argc_eq_array"] += 1
+        chk.count_case(lines[i][:200], True, {"line": lines[i][:100], "real": real[i][:60]} if i % 12 == 0 else None)
+        if real[i] != exps[i]:
+            crash = real[i].startswith("crash")
+            rt, et = real[i].split(), exps[i].split()
+            key = "args-crash-argv-null" if crash and arr is None else "args-crash" if crash else "args-sizes-ignore-argc" if rt[1:3] != et[1:3] else "args-layout"
+            chk.violation(key, f"wasiInit(argc={argc}, argv={'NULL' if arr is None else f'array of {len(arr)} strings + NULL'}), then args_sizes_get/args_get: real `{real[i][:100]}`, required `{exps[i][:100]}` "
+                               f"(errno, count, buffer size, errno, memory): count and size are those of the first argc entries only",
+                          {"kind": "argsx", "argc": argc, "argv": None if arr is None else [a.hex() for a in arr], "line": lines[i][:20000], "real": real[i][:2000], "expected": exps[i][:2000]}, True)
+        same_ub = model is not None and model[i].startswith("ub nullDeref") and real[i].startswith("crash") and ("null" in real[i] or "SEGV" in real[i])
+        if model is not None and model[i] != real[i] and not same_ub:
+            broken.append({"kind": "correspondence", "msg": f"{lines[i][:80]}: real `{real[i][:80]}` model `{model[i][:80]}`"})
+    chk.coverage["argc_vs_array"] = {"cases": len(cases), "shapes": shapes}
+
+
 # ----------------------------------------------------------------------------- clocks
 
 NATIVE = {0: "CLOCK_REALTIME", 1: "CLOCK_MONOTONIC", 2: "CLOCK_PROCESS_CPUTIME_ID", 3: "CLOCK_THREAD_CPUTIME_ID"}
@@ -319,8 +358,8 @@ LOOKALIKES = ["wasi_thread_start_hook", "wasi_thread_start2", "wasi_thread_start
               "wasi_thread_stop", "xwasi_thread_start"]
 
 
-def spawnx_line(names, ncalls, argbase):
-    return f"spawnx {ncalls} {argbase} {len(names)}" + "".join(" " + wp.hexs(n.encode()) for n in names)
+def spawnx_line(names, ncalls, argbase, child_first=False):
+    return f"spawnx{'s' if child_first else ''} {ncalls} {argbase} {len(names)}" + "".join(" " + wp.hexs(n.encode()) for n in names)
 
 
 def spawnx_expected(names, ncalls, argbase):
@@ -363,12 +402,14 @@ def spawn_lookup_tables(rng, tier):
 def run_spawn_lookup(chk, exe, tier, broken, model_ok):
     rng = chk.rng
     tables = spawn_lookup_tables(rng, tier)
-    cases = [(names, rng.choice([1, 1, 2, 3]), rng.choice([0, 7, 1000])) for names in tables]
+    # every table under two legal schedules: the spawner continues first / the new thread runs to completion (and
+    # frees its ThreadStartArg block) before pthread_create returns to the spawner
+    cases = [(names, rng.choice([1, 1, 2, 3]), rng.choice([0, 7, 1000]), cf) for names in tables for cf in (False, True)]
     lines = [spawnx_line(*c) for c in cases]
     real = wp.batch_once(exe, lines)
     model = vlib.DriverProc(PATHSDRIVER).batch(lines) if model_ok else None
     hist = {"no_exact_name": 0, "exact_first": 0, "exact_after_lookalike": 0, "empty_table": 0}
-    for i, (names, ncalls, argbase) in enumerate(cases):
+    for i, (names, ncalls, argbase, cf) in enumerate(cases):
         exp = spawnx_expected(names, ncalls, argbase)
         r = real[i]
         idx = next((j for j, n in enumerate(names) if n == EXACT), None)
@@ -376,16 +417,19 @@ def run_spawn_lookup(chk, exe, tier, broken, model_ok):
         hist["empty_table" if not names else "no_exact_name" if idx is None else "exact_after_lookalike" if pre else "exact_first"] += 1
         chk.count_case(lines[i], True, {"exports": names, "calls": ncalls, "real": r[:80], "model": model[i][:80] if model else None} if i % 25 == 3 else None)
         if r != exp:
-            if idx is None and "ran -" not in r:
+            if r.startswith("crash") and idx is not None:
+                key, why = "spawn-returns-freed-id" if cf else "spawn-crash", ("under the schedule where the new thread finishes (and frees its ThreadStartArg block) before the spawner continues, thread-spawn must still return the id it passed to wasi_thread_start"
+                                                                                 if cf else "thread-spawn crashed")
+            elif idx is None and "ran -" not in r:
                 key, why = "spawn-export-lookalike-taken", "no export is named exactly wasi_thread_start, so every thread-spawn call must return a negative value and start nothing"
             elif idx is not None and r.startswith("ret 1") and f" ran {idx}:" not in r:
                 key, why = "spawn-export-wrong-entry", f"the thread entry must be export #{idx} (the first one named exactly wasi_thread_start)"
             else:
                 key, why = "spawn-export-lookup", "export lookup / returned ids / start calls differ from the property"
-            chk.violation(key, f"thread-spawn on a module whose function exports are {names!r} ({ncalls} call(s), start arg {argbase}…): {why}; real `{r[:160]}`, required `{exp[:160]}` (format: returned values; `ran export#:tid:arg:childOk`)",
-                          {"kind": "spawnx", "exports": names, "calls": ncalls, "argbase": argbase, "line": lines[i], "real": r, "expected": exp}, True)
-        if model is not None and model[i] != r:
-            broken.append({"kind": "correspondence", "msg": f"thread-spawn export lookup {names!r}: real `{r[:100]}` model `{model[i][:100]}`"})
+            chk.violation(key, f"thread-spawn on a module whose function exports are {names!r} ({ncalls} call(s), start arg {argbase}…; schedule: {'new thread runs to completion first' if cf else 'spawner continues first'}): {why}; real `{r[:160]}`, required `{exp[:160]}` (format: returned values; `ran export#:tid:arg:childOk`)",
+                          {"kind": "spawnx", "exports": names, "calls": ncalls, "argbase": argbase, "child_first": cf, "line": lines[i], "real": r, "expected": exp}, True)
+        if model is not None and model[i] != r and not (model[i].startswith("ub useAfterFree") and r.startswith("crash child asan:heap-use-after-free")):
+            broken.append({"kind": "correspondence", "msg": f"thread-spawn export lookup {names!r} child_first={cf}: real `{r[:100]}` model `{model[i][:100]}`"})
     chk.coverage["spawn_export_tables"] = {"cases": len(cases), "shapes": hist, "lookalike_names": len(LOOKALIKES)}
 
 
@@ -423,6 +467,7 @@ def run(tier):
         exe = wp.build(repo, d)
         h = wp.Harness(exe)
         run_vectors(chk, exe, tier, broken, model_ok)
+        run_argc(chk, exe, tier, broken, model_ok)
         run_clocks(chk, exe, h, tier, broken, model_ok)
         run_random(chk, h, tier, broken, model_ok)
         run_exit(chk, h, tier, broken, model_ok)
@@ -476,8 +521,12 @@ def replay(path):
                     break
                 print(f"replay attempt {attempt}/5 of `{r['line'][:100]}`: {r['n']} calls, every reading inside its host bracket, no clock went backwards")
         elif kind == "spawnx":
-            out = h.ask(spawnx_line(r["exports"], r["calls"], r["argbase"]))
+            out = h.ask(spawnx_line(r["exports"], r["calls"], r["argbase"], r.get("child_first", False)))
             print(f"replay thread-spawn x{r['calls']} with function exports {r['exports']!r}: real `{out[:200]}`, required `{r['expected'][:200]}`")
+            rc = 0 if out == r["expected"] else 1
+        elif kind == "argsx":
+            out = h.ask(r["line"])
+            print(f"replay wasiInit(argc={r['argc']}, argv={'NULL' if r['argv'] is None else str(len(r['argv'])) + ' strings + NULL'}) + args_sizes_get/args_get: real `{out[:120]}`, required `{r['expected'][:120]}`")
             rc = 0 if out == r["expected"] else 1
         elif kind in ("vector", "clock", "spawn"):
             out = h.ask(r["line"])
